@@ -497,3 +497,204 @@ func MustPassBefore(from ssa.Instruction, goal, stop func(ssa.Instruction) bool,
 	ok := walk(b, idx)
 	return ok, bad
 }
+
+// ---------------------------------------------------------------- function groups (a function and the helpers extracted from it)
+
+// SingleSite returns the only call of an extracted helper, or nil.
+func SingleSite(p *Prog, f *ssa.Function) *ssa.Call {
+	sites, ok := helperSites(p, f)
+	if !ok || len(sites) != 1 {
+		return nil
+	}
+	call, _ := sites[0].Instr.(*ssa.Call)
+	return call
+}
+
+// ResolveIP is Resolve extended through the parameters of single-site helpers: such a parameter
+// denotes the actual argument of the one call.
+func ResolveIP(p *Prog, v ssa.Value) ssa.Value {
+	for i := 0; i < 8; i++ {
+		v = Resolve(v)
+		prm, ok := v.(*ssa.Parameter)
+		if !ok {
+			return v
+		}
+		site := SingleSite(p, prm.Parent())
+		if site == nil {
+			return v
+		}
+		idx := -1
+		for k, q := range prm.Parent().Params {
+			if q == prm {
+				idx = k
+			}
+		}
+		if idx < 0 || idx >= len(site.Call.Args) {
+			return v
+		}
+		v = site.Call.Args[idx]
+	}
+	return v
+}
+
+// CtxCmps returns the comparisons known on entry to b, including - when b's function is a single-site
+// helper - those known at its call (transitively). Operands are left in their own frames; compare them
+// with ResolveIP.
+func CtxCmps(p *Prog, b *ssa.BasicBlock) []Cmp {
+	out := EdgeCmps(b)
+	for depth := 0; depth < 5; depth++ {
+		site := SingleSite(p, b.Parent())
+		if site == nil {
+			break
+		}
+		b = site.Block()
+		out = append(out, EdgeCmps(b)...)
+	}
+	return out
+}
+
+// CtxFacts is the same for raw branch conditions.
+func CtxFacts(p *Prog, b *ssa.BasicBlock) []Cond {
+	out := EdgeFacts(b)
+	for depth := 0; depth < 5; depth++ {
+		site := SingleSite(p, b.Parent())
+		if site == nil {
+			break
+		}
+		b = site.Block()
+		out = append(out, EdgeFacts(b)...)
+	}
+	return out
+}
+
+// Group returns f followed by the extracted helpers that run only on f's behalf (HelperRoot == f).
+func Group(p *Prog, f *ssa.Function) []*ssa.Function {
+	out := []*ssa.Function{f}
+	for _, h := range HelpersOf(p, []*ssa.Function{f}) {
+		if HelperRoot(p, h) == f {
+			out = append(out, h)
+		}
+	}
+	return out
+}
+
+// InstrsGroup visits the instructions of f and of the helpers extracted from it.
+func InstrsGroup(p *Prog, f *ssa.Function, fn func(*ssa.Function, ssa.Instruction)) {
+	for _, g := range Group(p, f) {
+		Instrs(g, func(ins ssa.Instruction) { fn(g, ins) })
+	}
+}
+
+// SiteChain returns, for an instruction inside a helper of the group rooted at root, the instruction
+// itself followed by the call instructions through which control came from root (innermost first).
+// For an instruction of root itself the chain has one element. nil if the chain is not unique.
+func SiteChain(p *Prog, root *ssa.Function, ins ssa.Instruction) []ssa.Instruction {
+	chain := []ssa.Instruction{ins}
+	f := ins.Parent()
+	for depth := 0; f != root && depth < 6; depth++ {
+		site := SingleSite(p, f)
+		if site == nil {
+			return nil
+		}
+		chain = append(chain, site)
+		f = site.Parent()
+	}
+	if f != root {
+		return nil
+	}
+	return chain
+}
+
+// MinAfterIP is the minimum, over all paths from just after ins to the end of the root function of its
+// group, of the number of matching instructions: the remainder of ins's own function and then, when that
+// function is a single-site helper, what follows its call in the caller (transitively up to root).
+func MinAfterIP(p *Prog, root *ssa.Function, ins ssa.Instruction, weight func(ssa.Instruction) int) int {
+	chain := SiteChain(p, root, ins)
+	if chain == nil {
+		return 0
+	}
+	total := 0
+	for _, at := range chain {
+		min, _ := PathCountFrom(at.Block(), at, weight, nil)
+		if min > 0 {
+			total += min
+		}
+	}
+	return total
+}
+
+// ---------------------------------------------------------------- return cases (single-exit functions)
+
+// EdgeFactsOn returns the branch conditions that hold when control passes along the edge pred→succ.
+func EdgeFactsOn(pred, succ *ssa.BasicBlock) []Cond {
+	out := EdgeFacts(pred)
+	if len(pred.Instrs) > 0 && len(pred.Succs) == 2 && pred.Succs[0] != pred.Succs[1] {
+		if iff, ok := pred.Instrs[len(pred.Instrs)-1].(*ssa.If); ok {
+			out = append(out, expandCond(Cond{iff.Cond, pred.Succs[0] == succ, iff}, 0)...)
+		}
+	}
+	return out
+}
+
+// RetCase is one way a function returns: a Return instruction together with, when its results are
+// merged by phis (single-exit style: `var err error; …; return err`), one incoming combination - the
+// values arriving over one predecessor edge and the facts that hold on that edge.
+type RetCase struct {
+	Ret   *ssa.Return
+	Vals  []ssa.Value
+	Facts []Cond
+	// Via is the chain of blocks from the block where the values were decided to the return block
+	// (just the return block when nothing is merged).
+	Via []*ssa.BasicBlock
+}
+
+// Cmps returns the comparisons among the facts of the case.
+func (rc RetCase) Cmps() []Cmp {
+	var out []Cmp
+	for _, c := range rc.Facts {
+		if m, ok := AsCmp(c); ok {
+			out = append(out, m)
+		}
+	}
+	return out
+}
+
+// ReturnCases enumerates the return cases of f (the recover block excluded).
+func ReturnCases(f *ssa.Function) []RetCase {
+	var out []RetCase
+	Instrs(f, func(ins ssa.Instruction) {
+		r, ok := ins.(*ssa.Return)
+		if !ok || r.Block() == f.Recover {
+			return
+		}
+		vals := RetVals(r)
+		expandRet(r, vals, r.Block(), EdgeFacts(r.Block()), []*ssa.BasicBlock{r.Block()}, 0, &out)
+	})
+	return out
+}
+
+func expandRet(r *ssa.Return, vals []ssa.Value, at *ssa.BasicBlock, facts []Cond, via []*ssa.BasicBlock, depth int, out *[]RetCase) {
+	// is some value a phi of block `at`?
+	hasPhi := false
+	for _, v := range vals {
+		if phi, ok := v.(*ssa.Phi); ok && phi.Block() == at {
+			hasPhi = true
+		}
+	}
+	if !hasPhi || depth > 3 || len(at.Preds) > 16 {
+		*out = append(*out, RetCase{Ret: r, Vals: vals, Facts: facts, Via: via})
+		return
+	}
+	for i, pred := range at.Preds {
+		nv := make([]ssa.Value, len(vals))
+		for k, v := range vals {
+			nv[k] = v
+			if phi, ok := v.(*ssa.Phi); ok && phi.Block() == at {
+				nv[k] = phi.Edges[i]
+			}
+		}
+		nvia := append([]*ssa.BasicBlock{pred}, via...)
+		nf := append(append([]Cond{}, facts...), EdgeFactsOn(pred, at)...)
+		expandRet(r, nv, pred, nf, nvia, depth+1, out)
+	}
+}
